@@ -1,6 +1,7 @@
 package checks
 
 import (
+	"strings"
 	"bytes"
 	"fmt"
 	"reflect"
@@ -237,6 +238,9 @@ func runC03(c wireCase) (bool, []string, error) {
 		dirtyBanks(file, spec.Build(c.Target))
 	}
 	nt, labels := wireLabels(c, st, len(lay.Blocks))
+	if strings.HasPrefix(c.Target.Cat, "Gen") {
+		labels = append(labels, "generated_named_target")
+	}
 	typ := spec.Build(c.Target)
 	dirtyTarget := len(c.Sync) > 1 && c.Sync[1]%4 == 0
 	if dirtyTarget {
@@ -304,6 +308,45 @@ func drawEmbedSchema(t *rapid.T) ref.Schema {
 	return s
 }
 
+var wireNamed []string
+var wireNamedDone bool
+
+// wireNamedTargets: the generated named types whose schema (by the documented
+// mapping) the reference side can express and give values to.
+func wireNamedTargets() []string {
+	if wireNamedDone {
+		return wireNamed
+	}
+	wireNamedDone = true
+	for _, n := range cat.GenNames() {
+		sp := cat.Get(n).Spec
+		s, err := spec.ModelSchema(sp, goNaming)
+		if err != nil || ref.Validate(s) != nil {
+			continue
+		}
+		// named-type-free of the shapes the wire value generator has no rule for
+		ok := true
+		func() {
+			defer func() {
+				if recover() != nil {
+					ok = false
+				}
+			}()
+			g := rapid.Custom(func(t *rapid.T) ref.Datum { return gen.WireDatum(t, s, sp, true) })
+			for seed := 1; seed <= 3; seed++ {
+				d := g.Example(seed)
+				if !datumFits(s, d, sp) {
+					ok = false
+				}
+			}
+		}()
+		if ok {
+			wireNamed = append(wireNamed, n)
+		}
+	}
+	return wireNamed
+}
+
 func drawWireCase(t *rapid.T, o *gen.WireOpts) wireCase {
 	var c wireCase
 	if gen.Uniform(t, "embedArm", 15) == 0 {
@@ -311,6 +354,13 @@ func drawWireCase(t *rapid.T, o *gen.WireOpts) wireCase {
 		// that also carry fields named like the embedded struct's own fields
 		c.Target = cat.Get([]string{"EmbedMid", "EmbedPtr", "Embeds"}[gen.Uniform(t, "embedType", 3)]).Spec
 		c.Schema = drawEmbedSchema(t)
+	} else if names := wireNamedTargets(); len(names) > 0 && gen.Uniform(t, "namedArm", 12) == 0 {
+		// a named struct type generated for this run (named nested structs, embedding,
+		// unexported fields, defined collection types) as the target of a file written
+		// by another implementation under the schema the documented mapping gives the type
+		e := cat.Get(names[gen.Uniform(t, "namedTarget", len(names))])
+		c.Target = e.Spec
+		c.Schema, _ = spec.ModelSchema(e.Spec, goNaming)
 	} else {
 		c.Schema = gen.WireRecord(t, o, 0)
 		tgt, _ := gen.Target(t, c.Schema, o, false)
